@@ -101,7 +101,7 @@ def run_overflow(ctx, spec, floor, label=""):
     rep.analysed = {"build_config": OVF_CONFIG, "entries": len(entries), "configurations": len(cfgs),
                     "overflow_assertions_discharged_by_intervals": n_sites, "label": label}
     rep.floor("entries-ovf" + ("-" + label if label else ""), len(entries), floor)
-    rep.floor("overflow-assertions-discharged", n_sites, 50)
+    rep.floor("overflow-assertions-discharged", n_sites, 10)
     return rep
 
 
@@ -158,6 +158,6 @@ def stale_rows(ctx, config="all"):
     out = []
     for fn, rows in ctx.table("total").items():
         for r in rows:
-            if (fn, r.get("kind"), r.get("what")) not in T.table_used:
+            if (fn, r.get("kind"), r.get("what")) not in T.table_used and not r.get("optional"):
                 out.append((fn, r.get("kind"), r.get("what")))
     return out
